@@ -642,3 +642,4 @@ PROPS["C17"]["rule"] += " The histories also use enable, remRule, getRule, searc
 PROPS["C15"]["rule"] += " Part 1 also deletes locations (Location.Delete), uses rule ids that need quoting in JSON (a double quote, a backslash, a space), schedules with white space around them, and delivers each tick with the event text that was registered for the job (which must be JSON)."
 PROPS["C15"]["rule"] += " In half of the sys.System cases A and B have a parent location P (with a fact the rules' conditions look at and a yearly rule of its own that must never run); `outage` operations switch P off for 1.1 or 2.3 s, during which ticks may fail; recurring rules must be running again afterwards."
 PROPS["C15"]["rule"] += " A third part (crolt-glue) covers the persistent service end to end, in process: locations whose state hooks use cron.CroltSimple, whose HTTP client is routed to the handlers of the real crolt (package main, injected with -overlay; no network; firing loop not started); histories (2-14 ops) of adding scheduled rules (cron expressions, '+d', '!t', '@yearly'), writing them again with another schedule, overwriting them with ordinary rules or facts, RemRule, Clear, Delete and reload over two locations; after every op crolt's job table must hold exactly one job per live scheduled rule, with that rule's current schedule and an event that names the rule and its location; non-trivial = a scheduled rule was overwritten or removed."
+PROPS["C12"]["rule"] += " Every event's result (the work) is encoded as JSON by the client, as the service does before it answers."
